@@ -6,13 +6,16 @@
     every vector: a checked value of another type panics with PType before [action] is reached, the
     vectors of the world are untouched, an owning wrapper destroys its value exactly once and a
     borrowed one (raw pointer wrapper, lazy clone) does nothing at all; with the right type the check
-    is transparent.  Splice's per-item check sits inside [Ops.splice_fill] in front of every write
-    (same [assert_] on [r_ty]); that a rejected splice leaves a valid vector is [C11_splice_beyond]
-    / [C06_splice_liar]-style reasoning on [splice_drop] and is PARTIAL here (covered by the
-    correspondence check's `types' family, as are the downcast / type-report entry points whose
-    model is a constant table: OProbeTypes, ODownWrong, OSwapWrong). *)
+    is transparent.  Splice: [C04_splice_wrong_type] - for EVERY range, cursor position, number of correctly typed items in
+    front of the wrong one and of items behind it: Splice::drop panics with PType before the wrong value
+    is written, the vector is left VALID (it represents the elements in front of the range; tail and
+    already written replacement values are leaked, which C04/C06 permit), the wrong value and the items
+    the iterator still held are destroyed exactly once each.  PARTIAL: the downcast / type-report entry
+    points are a constant table in the model (OProbeTypes, ODownWrong, OSwapWrong) and are covered by the
+    correspondence check's `types' family only. *)
 From AV.Model Require Import Base Bytes Vec Ops Interp.
-From AV.Proofs Require Import MemLemmas Rep HandleProofs.
+From AV.Spec Require Import VecSpec.
+From AV.Proofs Require Import MemLemmas Rep RangeProofs HandleProofs TypeProofs.
 
 Theorem C04_wrong_type_owned_value_rejected :
   forall (c : cfg) (vid : nat) (o : offer) (action : vsrc -> M st unit) (w : world) (t : N),
@@ -36,6 +39,39 @@ Theorem C04_right_type_check_transparent :
          (unwinding (on_vec vid (action (f_src o))) (drop_offer c o);; finish_offer c o) w.
 Proof. exact offer_right_type. Qed.
 
+(** per-item check of splice *)
+Theorem C04_splice_wrong_type :
+  forall (c : cfg) (v : vec) (u : uw) (xs : list N) (s e i j : nat) (known : bool) 
+           (good : list N) (tb : N) (rest : list N) (k : bool) (ty : N),
+         cfg_wf c ->
+         RangeAlive c v xs s e i j ->
+         ufuse u = None ->
+         (ty =? c_ty c) = false ->
+         let items :=
+           map (fun t : N => honest_item c t k) good ++
+           typed_item c tb k ty :: map (fun t : N => honest_item c t k) rest in
+         let n := length items in
+         let new_len := (s + n + (length xs - e))%nat in
+         N.of_nat new_len <= vcap v \/ grow_ok c v (N.of_nat new_len) ->
+         let d :=
+           {|
+             dcur := {| ci := N.of_nat i; ce := N.of_nat j |};
+             dstart := N.of_nat s;
+             dend := N.of_nat e;
+             dorig := N.of_nat (length xs)
+           |} in
+         exists (v' : vec) (u' : uw),
+           splice_drop c known d (N.of_nat n) items (v, u) = Panic PType (v', u') /\
+           Rep c v' (firstn s xs) /\
+           vbk v' = vbk v /\
+           ufuse u' = None /\
+           unext u' = unext u /\
+           uevents u' =
+           (if c_dg c then rev (map EDrop (tb :: rest)) else []) ++
+           repeat ENext (S (length good)) ++
+           (if c_dg c then rev (map EDrop (firstn (j - i) (skipn i xs))) else []) ++ uevents u.
+Proof. exact splice_drop_wrong_type. Qed.
+
 (** Non-vacuity: a wrong-typed owned value offered to a non-empty vector. *)
 Example C04_example :
   let c := {| c_sz := 2; c_al := 2; c_dg := true; c_cl := true; c_trap := true; c_ty := 1 |} in
@@ -49,3 +85,4 @@ Proof. vm_compute. reflexivity. Qed.
 Print Assumptions C04_wrong_type_owned_value_rejected.
 Print Assumptions C04_wrong_type_borrowed_value_rejected.
 Print Assumptions C04_right_type_check_transparent.
+Print Assumptions C04_splice_wrong_type.
